@@ -550,6 +550,30 @@ var Corpus = []Scenario{
 		x.ERS("B")
 		x.D.Converge(40)
 	}},
+	{"affinity-canary-unbound-pods", []string{"C04", "C01", "C10"}, func(x Scn) {
+		// node-affinity placement: a pod just created by one role is not bound yet (spec.nodeName empty) when the OTHER role syncs;
+		// each role leaves the other's pending pod alone
+		sc := CanaryStrategy("1")
+		sc.CDuration = 20
+		x.Setup(3, "A", sc)
+		x.Template("B")
+		x.EDS()
+		x.EDS()
+		x.ERS("B") // deletes the A pod of the canary node
+		x.Tick(1)
+		x.do(Action{Op: "KRound"})
+		x.ERS("B") // creates the canary pod: pending, not bound
+		x.ERS("A") // the active role must not touch it
+		x.ERS("A")
+		x.do(Action{Op: "NodeAdd", N: "n4", V: "A,B,C", W: "c;z=z1"})
+		x.Tick(1)
+		x.ERS("A") // creates the pod of the new node: pending
+		x.ERS("B") // the canary role must not touch it
+		x.ERS("B")
+		x.Rounds(3)
+		x.Ann("c-valid", "B")
+		x.D.Converge(60)
+	}},
 	{"canary-covers-all-nodes", []string{"C13", "C04", "C07", "C02"}, func(x Scn) {
 		// as many canary replicas as nodes: the active replica set targets no node and reports 0/0/0/0 during the canary
 		sc := CanaryStrategy("2")
@@ -905,7 +929,7 @@ func runTraces(a CLIArgs) int {
 		// every property's formulas are evaluated on the whole corpus: a scenario written for one property regularly turns out
 		// to be the one that exposes a change to another (the Props tags are documentation)
 		_ = props
-		d.Reset(Options{}, sc.Name)
+		d.Reset(Options{AffinityMode: strings.HasPrefix(sc.Name, "affinity-")}, sc.Name)
 		sc.Run(Scn{D: d, R: rand.New(rand.NewSource(a.Seed))})
 		names = append(names, sc.Name)
 	}
